@@ -146,6 +146,52 @@ def entryDialedPeer : Entry → DialedAddr → Option PeerId
 def transportCheck (e : Entry) (a : DialedAddr) (proven : PeerId) : Except NegErr PeerId :=
   negotiateCheck (entryDialedPeer e a) proven
 
+/-! ## The address a negotiated connection reports (`Endpoint::address`, what the manager scores) -/
+
+/-- `DnsType` (`transport/common/listener.rs`). -/
+inductive DnsType where
+  | dns | dns4 | dns6
+  deriving DecidableEq, Repr
+
+/-- `AddressType` as far as its shape goes: `Socket(addr)` (with the IP version of `addr`) or
+`Dns { address, port, dns_type }`. -/
+inductive AddrType where
+  | socket (v6 : Bool)
+  | dns (t : DnsType)
+  deriving DecidableEq, Repr
+
+/-- The `AddressType` `multiaddr_to_socket_address` builds from the host component. -/
+def addressType : Host → AddrType
+  | .ip4 => .socket false
+  | .ip6 => .socket true
+  | .dns => .dns .dns
+  | .dns4 => .dns .dns4
+  | .dns6 => .dns .dns6
+
+/-- The host component `negotiate_connection` rebuilds from the `AddressType` it was handed
+(`Protocol::from(address.ip())` for a socket address; `Protocol::Dns` / `Dns4` / `Dns6` by `dns_type`). Name and port
+are copied verbatim in every arm and are not modelled. -/
+def endpointHost : AddrType → Host
+  | .socket false => .ip4
+  | .socket true => .ip6
+  | .dns .dns => .dns
+  | .dns .dns4 => .dns4
+  | .dns .dns6 => .dns6
+
+/-- `Endpoint::address()` of the connection a dialer gets for the address handed to `TcpTransport::dial` / `open`
+(`none`: the address does not parse, nothing is dialed): `/<host>/tcp/<port>`, never a `/p2p` suffix. -/
+def endpointAddress (e : Entry) (a : DialedAddr) : Option DialedAddr :=
+  let parsed := match e with
+    | .dial => parseDialed a
+    | .open => parseDialed (dialPeerAddress a)
+  parsed.map fun hp => [.host (endpointHost (addressType hp.1)), .tcp]
+
+/-- `AddressRecord::new(&peer, endpoint.address(), CONNECTION_ESTABLISHED)` in
+`update_address_on_connection_established`: the record the manager scores for a dialer's connection to `peer`
+(the endpoint address never ends in `/p2p`, so the peer is appended). -/
+def scoredAddress (e : Entry) (a : DialedAddr) (peer : PeerId) : Option DialedAddr :=
+  (endpointAddress e a).map (· ++ [.p2p peer])
+
 /-! ## What an honest node sends (`NoiseContext::assemble`) -/
 
 /-- `PublicKey::Ed25519(k).to_protobuf_encoding()` -/
